@@ -228,6 +228,7 @@ pub open spec fn printed_for(file: Seq<char>, built_ok: bool, e: Seq<Entry>) -> 
 //@   subst "println!(\"File {} Pass\\n\", file)" => "vprint_file_pass(world, file)"
 //@   subst "println!(\"File {} Fail\\n\", file)" => "vprint_file_fail(world, file)"
 //@   subst "eprintln!(\"Err: {}\", msg)" => "veprint_err(world, msg)"
+//@   subst? "env.borrow_mut().val_cache.clear();" => "env.borrow_mut().rest.clear_val_cache();"
 //@   mutant fix_reverted "env.borrow_mut().assert_results = build::AssertCollector::new();" => "" expect do_validate
 //@   mutant fail_reported_pass "println!(\"File {} Fail\\n\", file); return false;" => "println!(\"File {} Fail\\n\", file);" expect do_validate
 //@   mutant verdict_negated "if b.assert_results()" => "if !b.assert_results()" expect do_validate
